@@ -319,8 +319,8 @@ Proof.
   - destruct (find_sv (n_surveys st) id0) as [s0|] eqn:Ef; [|injection H as <-; auto].
     destruct (Nat.eq_dec id0 id) as [->|Hne].
     + rewrite Ef in Hf. injection Hf as <-.
-      replace (length (s_buf s) <? s_num s) with false in H by (symmetry; apply Nat.ltb_ge; lia).
-      destruct (s_phase s); injection H as <-; auto.
+      replace (length (s_buf s0) <? s_num s0) with false in H by (symmetry; apply Nat.ltb_ge; lia).
+      destruct (s_phase s0); injection H as <-; auto.
     + destruct (s_phase s0); try (injection H as <-; auto);
         (destruct (length (s_buf s0) <? s_num s0); injection H as H; [eapply Hother; eauto|auto]).
   - destruct (find_sv (n_surveys st) id0) as [s0|] eqn:Ef; [|discriminate].
@@ -350,5 +350,5 @@ Proof.
     replace (length (s_buf s) <? s_num s) with false by (symmetry; apply Nat.ltb_ge; lia). reflexivity.
   - destruct (sstep st l) as [st1|] eqn:E; [|discriminate]. intros H.
     destruct (stuck_step st l st1 id s E Hf Hs HN) as (s1 & Hf1 & Hs1 & _).
-    eapply IH; eauto. eapply sstep_inv; eauto.
+    apply (IH st1 st' id s1); auto. eapply sstep_inv; eauto.
 Qed.
